@@ -304,6 +304,7 @@ func TestC11(t *testing.T) {
 		return c
 	}, Exec: execAssocSeq, NoJournal: true}, 0)
 	core.Rapid(r, core.Check[kinCase]{Name: "sets-of-kin", Gen: genKin, Exec: execKin}, r.N(1500, 15000))
+	core.Rapid(r, core.Check[longDocCase]{Name: "long-documents", Gen: genLongDoc(false), Exec: execLongDoc}, r.N(60, 900))
 	deepDepths := []int{2, 8, 9, 16, 17, 18, 19, 40, r.N(100, 300)}
 	core.DFS(r, core.Check[deepDocCase]{Name: "deep-sentences", Gen: func(s core.Source) deepDocCase {
 		return deepDocCase{Context: core.Pick(s, []string{"Array", "List", "Set", "Stack", "Queue", "Catalog", "Map"}, "context"), Depth: deepDepths[s.Choose(len(deepDepths), "depth")]}
